@@ -51,3 +51,37 @@ func wireCheckGM(c2s, s2c []byte, cr, sr *endRes, payC, payS []byte, p *benignPa
 	}
 	return ""
 }
+
+// wireCheckTLS12 is the same oracle for plain TLS 1.2 sessions whose suite the
+// reference implements (RSA key exchange with AES-CBC/GCM): the pre-master is
+// decrypted with the fixture RSA key, the master secret recomputed with the
+// SHA-256/384 PRF and compared with the key log where there is one.
+func wireCheckTLS12(c2s, s2c []byte, cr, sr *endRes, payC, payS []byte, keyName string, suite uint16) string {
+	kl := reftls.ParseKeyLog(append(append([]byte(nil), cr.KeyLog.Bytes()...), sr.KeyLog.Bytes()...))
+	o := reftls.DecodeOpts{KeyLog: kl}
+	if keyName != "" {
+		o.RSAD = refRSA(keyName)
+	}
+	sess, err := reftls.Decode(c2s, s2c, o)
+	if err != nil {
+		return "independent decode of the captured TLS 1.2 session failed: " + err.Error()
+	}
+	if !sess.Complete {
+		return "independent decode: handshake not complete on the wire although both ends reported completion"
+	}
+	if !bytes.Equal(sess.App[0], payC) {
+		return fmt.Sprintf("independent decode: client->server application bytes (%d) differ from what the client wrote (%d), first diff %d", len(sess.App[0]), len(payC), firstDiff(sess.App[0], payC))
+	}
+	if !bytes.Equal(sess.App[1], payS) {
+		return fmt.Sprintf("independent decode: server->client application bytes (%d) differ from what the server wrote (%d), first diff %d", len(sess.App[1]), len(payS), firstDiff(sess.App[1], payS))
+	}
+	for d := 0; d < 2; d++ {
+		if err := sess.AuditNonces(d); err != nil {
+			return "IV/nonce audit: " + err.Error()
+		}
+	}
+	if sess.Suite != suite {
+		return fmt.Sprintf("suite on the wire %04x != reported %04x", sess.Suite, suite)
+	}
+	return ""
+}
